@@ -896,6 +896,8 @@ func Main(args []string) error {
 		return RunAll(os.Stdin, os.Stdout)
 	case "seeded":
 		return Seeded(os.Stdout, seed, args[1], num(2, 100))
+	case "pagenames":
+		return PageNamesReplay(os.Stdin, os.Stdout)
 	case "render":
 		var c Case
 		if err := json.NewDecoder(os.Stdin).Decode(&c); err != nil {
